@@ -422,7 +422,10 @@ def provably_positive_sym(F, fn, gb):
     opaque) that passes the assert at block gb, the asserted value is free of internal state or has a positive
     constant lower bound"""
     from sym import ipaths
-    paths = ipaths(F, fn, stop=lambda n: bool(def_effects(F, n)["acquire"]), depth=3, model_unwrap=True)
+    own = (fn.rec.get("self_ty") or "").split("<")[0]
+    # the function's own type's helpers are inlined even if they touch state; other components stay opaque state readers
+    paths = ipaths(F, fn, stop=lambda n: bool(def_effects(F, n)["acquire"]) and not (own and n in F.fns and (F.fns[n].rec.get("self_ty") or "").split("<")[0] == own and not F.fns[n].rec.get("reachable")),
+                   depth=3, model_unwrap=True)
     vals = []
     for p in paths:
         for a in p.atoms:
